@@ -16,7 +16,10 @@ theorem gc_source_shape :
     Generated.Gc.expiryCond = "now.Sub(lv.Value.TimeUTC()) > lv.Expiry" ∧
     Generated.Gc.expiryDec = true ∧
     Generated.Gc.oldestCond = "oldestLV == nil || lv.Value.TimeUTC().Before(oldestLV.Value.TimeUTC())" ∧
-    Generated.Gc.nowSrc = "time.Now()" := by decide
+    Generated.Gc.nowSrc = "time.Now()" ∧
+    -- every metric is visited: the closure waits for the metric's lock (it does not skip a busy
+    -- metric) and leaves only at its end
+    Generated.Gc.closurePrologue = "m.Lock(); defer m.Unlock()" ∧ Generated.Gc.closureReturns = 1 := by decide
 
 /-- C10 (refinement): on every metric satisfying the representation invariant (every reachable
     metric, C09), the Go GC closure — limit loop calling RemoveOldestDatum, then the index walk
